@@ -21,13 +21,20 @@ CHECKS = {
          'RedisError classifiers (a redirect is ok only with a non-empty address, IPv6 addresses bracketed). accessdrv encodes each tree to '
          'RESP, decodes it with the real readNextMessage and applies every method of *RedisMessage, *RedisResult (reflection; 107 methods and functions in total '
          'incl. DecodeJSON, Cache*, String) plus DecodeSliceOfJSON and every *RedisError method (also on nested error elements) under '
-         'recover; a panic, an outcome class outside the predicted one, a wrong error text or classifier result is a violation.',
+         'recover; a panic, an outcome class outside the predicted one, a wrong error text or classifier result is a violation. '
+         'Round 2, family comp: for every structured helper the module lists the components it must read (cursor, elements, member, score, '
+         'entry id, field list, entry, stream, pair, values, location, distance, coordinates, numeric element, JSON document, RESP3 FT record) '
+         'with the conversion that reads each, substitutes ONE component of a well-formed RESP2/RESP3 reply by each value that conversion '
+         'cannot read (nil, error element, empty/one-element array, empty/odd map, integer, empty/non-numeric/negative string, double, bool) '
+         'and predicts for the helpers reading it "an error, never a value, never a panic" (Nil / the component\'s RedisError where the '
+         'conversion is applied to the component directly); invariant CompNeverValue, negative config MC_neg_complenient.',
     design_ref='DESIGN.md 4.7, 5 C15; design/access.md',
     note='Exploration over model-generated shape classes, not all reply trees: quick 5.4k shapes (0.58M accessor applications), thorough '
          'larger alphabets / depth. Trusted: TLC, the JSON transport, the encoder (harness/fakeredis codec + hand-written streamed/attribute '
          'framing), the outcome classification in the driver (V/N/R/P/E by IsRedisNil, *RedisError, IsParseErr). Accessors the module has no '
          'rule for, or methods with a signature the driver cannot call, end the check inconclusive (so API growth is noticed). Outcome '
-         'classes are only claimed for the top-level reply; nested positions are checked for panics only.'),
+         'classes are claimed for the top-level reply and, in family comp, for the listed components of the structured replies (components the code '
+         'reads leniently with string()/intlen are not claimed to fail); other nested positions are checked for panics only.'),
  'C16': dict(
     level='exploration',
     technique='TLA+ module as exhaustive data generator and oracle (abstract data -> RESP2 and RESP3 reply trees Redis documents, expected Go '
@@ -41,10 +48,15 @@ CHECKS = {
          'accessor that applies (field names of the Go result structs), plus Is* predicates, ToAny and ToArray for every tree. TLC enumerates '
          'all data within the bounds, checks the oracle invariants (RESP2 shapes use RESP2 types only, last value of a repeated field wins '
          '= sequential insertion, no two data of a class share a reply tree but not the result) and prints every case; accessdrv decodes '
-         'each tree with the real decoder and compares every listed accessor on RedisMessage and RedisResult exactly (floats as n/2^k).',
+         'each tree with the real decoder and compares every listed accessor on RedisMessage and RedisResult exactly (floats as n/2^k). '
+         'Round 2, classes num/numint/numarr/numscan/nummap/numdbl: numbers at and beyond the boundaries of the Go types carried as decimal '
+         'text with an abstract magnitude (0, 5, 2^63-1, 2^63, 2^63+1, 2^64-1, 2^64, 2^65, both signs) and syntactic form (decimal, "+5", '
+         'leading/trailing blank, "0x10", "1e3", "1.5", empty, inf, -inf, nan, -nan, a word), as bulk string, integer reply, array element, '
+         'SCAN cursor, hash value and RESP3 double; the module predicts value-exact (decimal text of the integer, s*2^e of the nearest '
+         'double, inf/nan) or error per accessor from the mathematical range of the type; invariant NumRanges, negative config MC_neg_u64viai64.',
     design_ref='DESIGN.md 4.7, 5 C16; design/access.md',
-    note='Bounded: lists/maps up to 3 (thorough 4) elements, 2 streams x 1-2 entries, 2 documents/rows/locations, 32-bit integers (TLC), floats '
-         'exactly representable with finite decimal text (no inf/nan, no rounding), RESP2 FT.SEARCH only with non-numeric document names (the '
+    note='Bounded: lists/maps up to 3 (thorough 4) elements, 2 streams x 1-2 entries, 2 documents/rows/locations, 32-bit integers (TLC) except for the boundary classes of round 2 (texts), floats '
+         'exactly representable with finite decimal text (rounding only at 2^63-1, 2^63+1 and 2^64-1; inf/nan in the num classes), RESP2 FT.SEARCH only with non-numeric document names (the '
          'negative config shows the layout is ambiguous otherwise). nil and empty Go maps/slices are not distinguished. The RESP2/RESP3 layouts '
          'are transcribed from the Redis / RediSearch documentation; no server is available to confirm them. Known finding: RESP2 '
          'FT.SEARCH WITHPAYLOADS is not readable by AsFtSearch.'),
